@@ -48,16 +48,24 @@ int main(int argc, char **argv)
 	int kind = (int) (c % 5), m = 1 + rng_int(&R, 4), n = 1 + rng_int(&R, 3), i, j; smat S; const char *tr[3] = {"N", "T", "C"}; const char *t = tr[rng_int(&R, 3)];
 	SCALAR alpha = sc(ival(&R, 2), IS_COMPLEX ? ival(&R, 1) : 0), beta = sc(rng_int(&R, 3) == 0 ? 0 : ival(&R, 2), 0);
 	if (kind == 0) {          /* ---- gemv */
-	    int rr, cc; SCALAR *x, *y, *y0;
+	    int rr, cc, incx = 1, incy = 1, ax, ay, kx, ky, gaps = 1; SCALAR *x, *y, *y0, *xl, *yl0, *yl; const int incs[5] = {1, 2, -1, 3, -2};
 	    gen_sparse(&S, m, n, &R, 60);
 	    rr = t[0] == 'N' ? m : n; cc = t[0] == 'N' ? n : m;
-	    x = scalarMalloc(cc + 1); y = scalarMalloc(rr + 1); y0 = scalarMalloc(rr + 1);
-	    for (i = 0; i < cc; ++i) x[i] = sc(ival(&R, 3), IS_COMPLEX ? ival(&R, 2) : 0);
-	    for (i = 0; i < rr; ++i) y0[i] = y[i] = sc(ival(&R, 3), IS_COMPLEX ? ival(&R, 2) : 0);
-	    SPG(gemv)((char *) t, alpha, &S.A, x, 1, beta, y, 1);
-	    fprintf(f, "{\"k0\":\"gemv\",\"prec\":\"%s\",\"trans\":\"%s\",\"m\":%d,\"n\":%d,\"alpha\":", PLS, t, m, n); pnum(f, alpha); fprintf(f, ",\"beta\":"); pnum(f, beta);
-	    pmat(f, "A", S.colptr, S.rowind, S.val, n); pvec(f, "x", x, cc, 1); pvec(f, "y", y0, rr, 1); pvec(f, "out", y, rr, 1); fprintf(f, "}\n");
-	    SUPERLU_FREE(x); SUPERLU_FREE(y); SUPERLU_FREE(y0); Destroy_CompCol_Matrix(&S.A);
+	    /* the increments the routine implements: any incx with incy = 1 for 'N', any incy with incx = 1 for 'T' / 'C' (the rest is F11) */
+	    if (t[0] == 'N') incx = incs[rng_int(&R, 5)]; else incy = incs[rng_int(&R, 5)];
+	    ax = incx < 0 ? -incx : incx; ay = incy < 0 ? -incy : incy;
+	    kx = incx > 0 ? 0 : -(cc - 1) * incx; ky = incy > 0 ? 0 : -(rr - 1) * incy;
+	    x = scalarMalloc(cc * ax + 1); y = scalarMalloc(rr * ay + 1); y0 = scalarMalloc(rr * ay + 1);
+	    xl = scalarMalloc(cc + 1); yl0 = scalarMalloc(rr + 1); yl = scalarMalloc(rr + 1);
+	    for (i = 0; i < cc * ax; ++i) x[i] = sc(ival(&R, 3), IS_COMPLEX ? ival(&R, 2) : 0);
+	    for (i = 0; i < rr * ay; ++i) y0[i] = y[i] = sc(ival(&R, 3), IS_COMPLEX ? ival(&R, 2) : 0);
+	    SPG(gemv)((char *) t, alpha, &S.A, x, incx, beta, y, incy);
+	    for (i = 0; i < cc; ++i) xl[i] = x[kx + i * incx];                       /* the logical vectors */
+	    for (i = 0; i < rr; ++i) { yl0[i] = y0[ky + i * incy]; yl[i] = y[ky + i * incy]; }
+	    for (i = 0; i < rr * ay; ++i) if ((i - ky) % ay != 0 && memcmp(&y[i], &y0[i], sizeof(SCALAR))) gaps = 0;   /* elements between the strided entries stay */
+	    fprintf(f, "{\"k0\":\"gemv\",\"prec\":\"%s\",\"trans\":\"%s\",\"m\":%d,\"n\":%d,\"incx\":%d,\"incy\":%d,\"gapsok\":%d,\"alpha\":", PLS, t, m, n, incx, incy, gaps); pnum(f, alpha); fprintf(f, ",\"beta\":"); pnum(f, beta);
+	    pmat(f, "A", S.colptr, S.rowind, S.val, n); pvec(f, "x", xl, cc, 1); pvec(f, "y", yl0, rr, 1); pvec(f, "out", yl, rr, 1); fprintf(f, "}\n");
+	    SUPERLU_FREE(x); SUPERLU_FREE(y); SUPERLU_FREE(y0); SUPERLU_FREE(xl); SUPERLU_FREE(yl0); SUPERLU_FREE(yl); Destroy_CompCol_Matrix(&S.A);
 	} else if (kind == 1) {   /* ---- gemm */
 	    int rr, cc, nb = 1 + rng_int(&R, 2), ldb, ldc; SCALAR *B, *C, *C0;
 	    gen_sparse(&S, m, n, &R, 60);
